@@ -322,6 +322,8 @@ def field_array(value: bytes) -> typing.Tuple[int, common.FieldArray]:
         field_array_end = offset + length
         while offset < field_array_end:
             consumed, result = embedded_value(value[offset:])
+            if not consumed:
+                raise ValueError('Field array exceeds the available data')
             offset += consumed
             data.append(result)
         return offset, data
